@@ -153,3 +153,56 @@ def writes_to(body, pred):
         if pred(t['dest']):
             out.append((i, -1, t, 'call'))
     return out
+
+
+def locals_of_type(body, pred):
+    """user-visible or temporary locals whose type string satisfies pred"""
+    return [d['i'] for d in body.raw['locals'] if pred(d['ty'])]
+
+
+def table_locals(body):
+    """(theta_local, sols_local) of an internal solver, by role: both are [[f64; N]; 8] arrays; theta has a single
+    aggregate definition (the candidate table), sols is element-wise rewritten."""
+    theta = sols = None
+    for l in locals_of_type(body, lambda t: re.match(r'^\[\[f64; [56]\]; 8\]$', t) is not None):
+        defs = body.defs().get(l, [])
+        whole = [d for d in defs if d[4]]
+        partial = [d for d in defs if not d[4]]
+        if len(whole) == 1 and not partial and whole[0][0] == 'st' and whole[0][3]['rv']['k'] == 'agg' and l in body.names:
+            theta = l
+        elif partial and l in body.names:
+            sols = l
+    return theta, sols
+
+
+def sig(body):
+    """[return type, param types...] of a body"""
+    return [body.local_ty(i) for i in range(0, body.arg_count + 1)]
+
+
+def find_role(ctx, desc, pred, module=None, called_from=None):
+    """Unique non-closure body selected by a predicate on (body, signature) - private helpers are found by what they are,
+    not by what they are called.  called_from: restrict to crate-local callees of these bodies (transitively through closures)."""
+    prog = ctx.prog
+    cands = []
+    allowed = None
+    if called_from is not None:
+        allowed = set()
+        for cb in called_from:
+            for p in prog.reachable_bodies([cb.path]):
+                allowed.add(p)
+    for pth, b in prog.bodies.items():
+        if b.kind == 'Closure':
+            continue
+        if module is not None and not pth.startswith(module):
+            continue
+        if allowed is not None and pth not in allowed:
+            continue
+        try:
+            if pred(b, sig(b)):
+                cands.append(b)
+        except Exception:
+            continue
+    ctx.require(len(cands) == 1, '%s (found %d: %s)' % (desc, len(cands), [c.path for c in cands][:4]))
+    ctx.fn(cands[0])
+    return cands[0]
